@@ -72,4 +72,34 @@ BQ_Subs == B_Subs
 BQ_STyps == B_STyps
 BQ_WSubs == B_WSubs
 BQ_Cap == B_Cap
+\* L: a type whose only emitter is created late: the node is made by subscribers, the last of them may close
+\* while another Subscribe is in flight, then the emitter arrives (node drop / re-creation races)
+L_Types == {"B"}
+L_Stateful == {}
+L_Emitters == {"e3"}
+L_ETyp == [e \in L_Emitters |-> "B"]
+L_NEv == [e \in L_Emitters |-> 1]
+L_Subs == {"s1", "s2"}
+L_STyps == [s \in L_Subs |-> <<"B">>]
+L_WSubs == {}
+L_Cap == [s \in L_Subs |-> 1]
+L_LateEm == {"e3"}
+\* L2: the same with a stateful type, an early emitter that closes, and a two-type subscriber
+L2_Types == {"A", "B"}
+L2_Stateful == {"A"}
+L2_Emitters == {"e1", "e3"}
+L2_ETyp == ("e1" :> "A") @@ ("e3" :> "B")
+L2_NEv == [e \in L2_Emitters |-> 1]
+L2_Subs == {"s1", "s2"}
+L2_STyps == ("s1" :> <<"B">>) @@ ("s2" :> <<"A", "B">>)
+L2_WSubs == {}
+L2_Cap == [s \in L2_Subs |-> 2]
+L2_LateEm == {"e3"}
+A_LateEm == {}
+B_LateEm == {}
+C_LateEm == {}
+D_LateEm == {}
+DS_LateEm == {}
+AQ_LateEm == {}
+BQ_LateEm == {}
 =============================================================================
